@@ -52,15 +52,16 @@ func precheck(spec *txgen.TxSpec, galaxias bool, nonce uint64, balance *big.Int,
 // itself: the funds are burnt) and marks the account for deletion at the end
 // of the transaction, together with whatever it still receives afterwards.
 type flowModel struct {
-	pre       func(common.Address) *big.Int
-	bal       map[common.Address]*big.Int
-	destroyed map[common.Address]bool
-	undo      []func()
-	frames    []int
-	burnSelf  *big.Int
-	burnLate  *big.Int // value that reached an already self-destructed account
-	touched   map[common.Address]bool
-	problems  []string
+	pre        func(common.Address) *big.Int
+	bal        map[common.Address]*big.Int
+	destroyed  map[common.Address]bool
+	undo       []func()
+	frames     []int
+	burnSelf   *big.Int
+	burnLate   *big.Int // value that reached an already self-destructed account
+	touched    map[common.Address]bool
+	problems   []string
+	problemKey string
 
 	liveSD                                                    int // self-destructs not undone by a failed frame
 	nFrames, nFailed, nValue, nSD, nSDSelf, nCreate, maxDepth int
@@ -72,6 +73,13 @@ type flowModel struct {
 func newFlowModel(pre func(common.Address) *big.Int) *flowModel {
 	return &flowModel{pre: pre, bal: map[common.Address]*big.Int{}, destroyed: map[common.Address]bool{}, burnSelf: new(big.Int), burnLate: new(big.Int),
 		touched: map[common.Address]bool{}, failKinds: map[string]int{}}
+}
+
+func (m *flowModel) problem(key, text string) {
+	m.problems = append(m.problems, text)
+	if m.problemKey == "" {
+		m.problemKey = key
+	}
 }
 
 func (m *flowModel) get(a common.Address) *big.Int {
@@ -99,7 +107,7 @@ func (m *flowModel) add(a common.Address, v *big.Int) { m.set(a, new(big.Int).Ad
 func (m *flowModel) sub(a common.Address, v *big.Int, what string) {
 	n := new(big.Int).Sub(m.get(a), v)
 	if n.Sign() < 0 {
-		m.problems = append(m.problems, fmt.Sprintf("overdraft: %s takes %v from %s which holds %v", what, v, a.Hex(), m.get(a)))
+		m.problem("overdraft", fmt.Sprintf("%s takes %v from %s which holds %v", what, v, a.Hex(), m.get(a)))
 	}
 	m.set(a, n)
 }
@@ -127,7 +135,7 @@ func (m *flowModel) enter(typ kvm.OpCode, from, to common.Address, value *big.In
 		m.undo = append(m.undo, func() { m.liveSD-- })
 		amt := m.get(from)
 		if value == nil || value.Cmp(amt) != 0 {
-			m.problems = append(m.problems, fmt.Sprintf("selfdestruct of %s moved %v, the account should hold %v at that point", from.Hex(), value, amt))
+			m.problem("selfdestruct-amount", fmt.Sprintf("selfdestruct of %s moved %v, the account should hold %v at that point", from.Hex(), value, amt))
 		}
 		if to == from {
 			m.nSDSelf++
@@ -147,7 +155,7 @@ func (m *flowModel) enter(typ kvm.OpCode, from, to common.Address, value *big.In
 
 func (m *flowModel) exit(err error) {
 	if len(m.frames) == 0 {
-		m.problems = append(m.problems, "tracer: frame exit without entry")
+		m.problem("tracer-frames-unbalanced", "frame exit without entry")
 		return
 	}
 	mark := m.frames[len(m.frames)-1]
